@@ -128,6 +128,18 @@ package ice
 //@   site call shouldAcceptNomination#1 assert C20 value-only-if-decoded: (arg1 != nil) == hasValidNomination
 //@   site call shouldAcceptNomination#1 ghost s.agent.gNomAccepted := result
 //@   site store state#1 assert C03 lite-nomination-only: s.agent.lite && s.agent.gNomAccepted && (hasUseCandidate || hasValidNomination) && object == pair && value == pairSucceeded
+//@   ghostvar sw bool = false
+//@   ghostvar moved bool = false
+//@   site call shouldSwitchSelectedPair#1 ghost sw := result
+//@   site call setSelectedPair#1 assert C03 C20 the-selection-moves-only-when-the-switch-decision-allows-it: sw
+//@   site call setSelectedPair#1 ghost moved := true
+//@   site call sendBindingSuccess#2 assert C03 C20 an-allowed-switch-is-carried-out-before-the-request-is-answered: sw ==> moved
+//@   ghostvar carries bool = false
+//@   ghostvar decoded bool = false
+//@   site call Contains#2 assert C20 looks-for-the-agents-nomination-attribute: arg0 == message && arg1 == s.agent.nominationAttribute
+//@   site call Contains#2 ghost carries := result
+//@   site call GetFromWithType#1 ghost decoded := result == nil
+//@   site call shouldAcceptNomination#1 assert C20 a-nomination-value-counts-only-if-the-attribute-is-there-and-decodes: hasValidNomination == (carries && decoded)
 //@   site call shouldSwitchSelectedPair#1 assert C03 switch-decision-on-valid-pair: pair.state == pairSucceeded && s.agent.gNomAccepted && arg1 == pair && arg3 == nominationValue
 //@   site call setSelectedPair#1 assert C03 selects-only-nominated-valid: (hasUseCandidate || hasValidNomination) && s.agent.gNomAccepted && pair.state == pairSucceeded && arg1 == pair
 //@   site store nominateOnBindingSuccess#1 assert C03 C20 deferred-only-when-nominated: (hasUseCandidate || hasValidNomination) && s.agent.gNomAccepted && object == pair && value == true && pair.state != pairSucceeded
@@ -146,6 +158,11 @@ package ice
 //@   props C03 C04
 //@   requires C04 alive: a.connectionState != ConnectionStateFailed
 //@   site call setSelectedPair#1 assert C03 only-with-application-handler: old(a.userBindingRequestHandler) != nil
+//@   ghostvar wants bool = false
+//@   site call userBindingRequestHandler#1 assert C03 C07 the-handler-is-asked-about-this-request-and-pair: arg0 == message && arg1 == local && arg2 == remote && arg3 == pair
+//@   site call userBindingRequestHandler#1 ghost wants := result
+//@   site call setSelectedPair#1 assert C03 C07 selects-only-when-the-applications-handler-asked-for-it: wants && arg1 == pair
+//@   site store state#1 assert C03 only-a-lite-agent-takes-the-handlers-word-for-validity: a.lite && wants && object == pair
 //@   ensures C03 no-handler-no-effect: old(a.userBindingRequestHandler) == nil ==> unchangedExcept()
 
 // The application's binding-request handler is fixed at construction (option applied only while !constructed).
